@@ -134,6 +134,63 @@ pub fn run(args: &Args, rep: &mut Report) {
                     if format!("{}", bx) != format!("{}", sx) || format!("{:?}", bx) != format!("{:?}", sx) || format!("{:p}", bx).is_empty() {
                         v17(rep, "sized/fmt-differs-from-std", String::new());
                     }
+                    // the caller's format spec must reach the boxed value
+                    #[derive(Debug, Clone, PartialEq)]
+                    struct Point {
+                        x: i32,
+                        y: f64,
+                        tag: &'static str,
+                    }
+                    let p = Point { x: (x % 1000) as i32 - 500, y: (y % 977) as f64 / 7.0, tag: "pt" };
+                    let bp = BBox::new_in(p.clone(), b);
+                    let sp = std::boxed::Box::new(p.clone());
+                    let bf = BBox::new_in(p.y, b);
+                    let sf = std::boxed::Box::new(p.y);
+                    let bn = BBox::new_in(BBox::new_in(p.x, b), b);
+                    let sn = std::boxed::Box::new(std::boxed::Box::new(p.x));
+                    let fb = [
+                        format!("{:#?}", bp),
+                        format!("{:>40?}", bp),
+                        format!("{:10.2?}|{:+.3}|{:>12.1}|{:e}", bf, bf, bf, *bf),
+                        format!("{:#x?}|{:08?}|{:<6}|{:+}|{:#b}", bn, bn, bn, bn, **bn),
+                        format!("{:#?}", bn),
+                    ];
+                    let fs = [
+                        format!("{:#?}", sp),
+                        format!("{:>40?}", sp),
+                        format!("{:10.2?}|{:+.3}|{:>12.1}|{:e}", sf, sf, sf, *sf),
+                        format!("{:#x?}|{:08?}|{:<6}|{:+}|{:#b}", sn, sn, sn, sn, **sn),
+                        format!("{:#?}", sn),
+                    ];
+                    if fb != fs {
+                        let i = (0..fb.len()).find(|&i| fb[i] != fs[i]).unwrap_or(0);
+                        v17(rep, "sized/fmt-with-flags-differs-from-std", format!("{:?} vs {:?}", fb[i], fs[i]));
+                    }
+                    // comparisons go to the value even when both operands are the same box / same address
+                    let nan = BBox::new_in(f64::NAN, b);
+                    let snan = std::boxed::Box::new(f64::NAN);
+                    #[allow(clippy::eq_op)]
+                    {
+                        if (nan == nan) != (snan == snan) || (nan != nan) != (snan != snan) || nan.partial_cmp(&nan) != snan.partial_cmp(&snan) {
+                            v17(rep, "sized/comparison-of-a-box-with-itself-differs-from-std", "NaN".to_string());
+                        }
+                    }
+                    let ns: BBox<[f32]> = BBox::from_iter_in([1.0f32, f32::NAN].iter().copied(), b);
+                    #[allow(clippy::eq_op)]
+                    if ns == ns {
+                        v17(rep, "slice/comparison-of-a-box-with-itself-differs-from-std", "NaN inside".to_string());
+                    }
+                    struct NeverEq;
+                    impl PartialEq for NeverEq {
+                        fn eq(&self, _o: &NeverEq) -> bool {
+                            false
+                        }
+                    }
+                    let z1 = BBox::new_in(NeverEq, b);
+                    let z2 = BBox::new_in(NeverEq, b);
+                    if z1 == z2 || !(z1 != z2) {
+                        v17(rep, "zst/comparison-does-not-consult-the-value", String::new());
+                    }
                     let r: &u64 = bx.as_ref();
                     let r2: &u64 = std::borrow::Borrow::borrow(&bx);
                     if *r != x || *r2 != x {
